@@ -7,21 +7,21 @@ TWINS = {"noverify": "Safe", "suffix": "Safe", "early": "Safe", "prefixhash": "S
 
 def run(ctx):
     # design runs: the documented procedure is safe for every script; each broken twin is refuted; some script installs
-    des = []
-    r = ctx.tlc("SelfUpdate", cfg="SelfUpdate.cfg", workers=2, name="design", timeout=900)
-    des.append({"cfg": "SelfUpdate", "states": r["states"], "transitions": r["transitions"], "result": "holds"})
     import concurrent.futures as cf
 
-    def twin(item):
+    def design_run(item):
         t, exp = item
+        if exp is None:
+            r = ctx.tlc("SelfUpdate", cfg="SelfUpdate.cfg", workers=2, name="design", timeout=900)
+            return {"cfg": "SelfUpdate", "states": r["states"], "transitions": r["transitions"], "result": "holds"}
         rr = ctx.tlc("SelfUpdate", cfg="SelfUpdate_%s.cfg" % t, workers=1, name="twin_" + t, timeout=900, allow_violation=True)
         if exp not in rr["violated"]:
             raise verif.MachineryError("twin %s not refuted (expected %s, got %s)" % (t, exp, rr["violated"]))
         return {"cfg": "SelfUpdate_" + t, "states": rr["states"], "transitions": rr["transitions"], "result": "refuted: " + exp}
-    with cf.ThreadPoolExecutor(max_workers=5) as ex:
-        des += list(ex.map(twin, TWINS.items()))
+    pool = cf.ThreadPoolExecutor(max_workers=3)
     gen = ctx.tlc("SelfUpdateGen", cfg="SelfUpdateGen.cfg", workers=1, name="gen", timeout=600)
     vec = os.path.join(gen["dir"], "vec.ndjson")
+    des_f = [pool.submit(design_run, it) for it in [("", None)] + list(TWINS.items())]   # beside the replay (independent of /repo)
     nscripts = sum(1 for _ in open(vec))
     payload = os.path.join(ctx.work, "payload.bin")
     archive = os.path.join(ctx.work, "payload.bz2")
@@ -31,6 +31,7 @@ def run(ctx):
     out = ctx.go_test("internal/selfupdate", "^TestVerif_C51$", timeout=1500,
                       env={"VERIF_VECTORS": vec, "VERIF_C51_PAYLOAD": payload, "VERIF_C51_ARCHIVE": archive})
     recs = os.path.join(out, "recs.ndjson")
+    bind_f = pool.submit(ctx.check_records, "Fn_SelfUpdateBind", recs, "bind")
     n, bad, lines = ctx.check_records("Fn_SelfUpdate", recs)
     for i in bad[:200]:
         r = json.loads(lines[i - 1])
@@ -42,7 +43,9 @@ def run(ctx):
             what = "installed-other-bytes"
         ctx.violate("selfupdate/%s/%s" % (what, cls), "script %s: target changed=%s (new content is the signed payload: %s), error returned=%s %s (SelfUpdate!RecOK false)"
                     % (cls, r["changed"], r["new_is_payload"], r["err"], r["err_text"]), r)
-    nb, badb, _ = ctx.check_records("Fn_SelfUpdateBind", recs, name="bind")
+    nb, badb, _ = bind_f.result()
+    des = [f.result() for f in des_f]
+    pool.shutdown()
     nonconf = [json.loads(lines[i - 1]) for i in badb if i not in set(bad)]
     res = ctx.go_results[-1]
     cnt = res.get("counters", {})
